@@ -178,7 +178,7 @@ def c13_jobs(tier):
     jobs = []
     q = tier == "quick"
     L = 8 if q else 1024
-    bases = [[], [40], [33, 41], [47, 48]] if q else [[]] + [[k] for k in PAYLOAD_KINDS] + [[33, 41], [47, 48], [34, 40, 43]]
+    bases = [[], [40], [33, 41], [47, 48], [40, 46]] if q else [[40, 46], [46, 43]] + [[]] + [[k] for k in PAYLOAD_KINDS] + [[33, 41], [47, 48], [34, 40, 43]]
     for base in bases:
         for mode in (0, 1, 2):
             if mode == 2 and not base:
